@@ -551,15 +551,45 @@ def _run_config(c):
             raise Fail("update(%r, %r) raised %s, documented outcome %s" % (c["key"], c["value"], type(e).__name__, c["want"]), "config|wrong-rejection")
         if c["want"] in ("ValueError", "TypeError"):
             raise Fail("update(%r, %r) was accepted, documented %s" % (c["key"], c["value"], c["want"]), "config|invalid-value-accepted")
-        # behavioural: the operator now follows the documented convention (3 pixels: the sine terms tell them apart)
-        dom = ift.DomainTuple.make(ift.RGSpace((3,), distances=1.))
-        op = ift.HartleyOperator(dom)
-        Rm = _rmatrix(ift, op, 1, dom, op.target, lambda dt: np.dtype(dt), "config|Hartley")
-        H = R.hartley_matrix((3,), (0,), c["want"])
-        _cmp(Rm, R.realify(H), TOL, "after update(%r, %r) the Hartley transform does not follow %s" % (c["key"], c["value"], c["want"]),
-             "config|convention-not-applied|%s" % c["want"])
-        other = R.hartley_matrix((3,), (0,), CONVS[1 - CONVS.index(c["want"])])
-        return ok(nontrivial=bool(np.abs(H - other).max() > 0.5), outcome="config|%s|%s" % (c["value"], c["want"].split("_")[0]))
+        stored = C._config["hartley_convention"]
+        # behavioural: EVERY backend now follows the convention this spelling denotes, on the full unit basis of
+        # non-symmetric grids (3 pixels / 2x3 pixels: the sine terms tell the conventions apart)
+        import jax
+        from functools import partial
+        from nifty.cl import ducc_dispatch as D
+        from nifty.cl.any_array import AnyArray
+        from nifty.re.correlated_field import hartley as jhartley
+        napp = 0
+        for shape in ((3,), (2, 3)):
+            ax = tuple(range(len(shape)))
+            N = int(np.prod(shape))
+            H = R.hartley_matrix(shape, ax, c["want"])
+            other = R.hartley_matrix(shape, ax, CONVS[1 - CONVS.index(c["want"])])
+            if not np.abs(H - other).max() > 0.5:
+                raise Fail("harness: conventions indistinguishable on %s" % (shape,), "harness")
+            dom = ift.DomainTuple.make(ift.RGSpace(shape, distances=1.))
+            op = ift.HartleyOperator(dom)
+            Rm = _rmatrix(ift, op, 1, dom, op.target, lambda dt: np.dtype(dt), "config|Hartley")
+            _cmp(Rm, R.realify(H), TOL, "after update(%r, %r) HartleyOperator does not follow %s" % (c["key"], c["value"], c["want"]),
+                 "config|convention-not-applied|HartleyOperator|%s" % c["value"])
+            impls = {"ducc_dispatch.hartley": lambda v: D.hartley(AnyArray(v), axes=ax).val,
+                     "_scipy_hartley": lambda v: D._scipy_hartley(AnyArray(v), axes=ax).val,
+                     "re.hartley": lambda v: jhartley(v, axes=ax),
+                     "re.hartley-jit": jax.jit(partial(jhartley, axes=ax))}          # traced after the update
+            for name, f in impls.items():
+                A = np.zeros((N, N))
+                for j in range(N):
+                    e = np.zeros(N)
+                    e[j] = 1.
+                    A[:, j] = np.asarray(f(e.reshape(shape))).reshape(-1)
+                    napp += 1
+                _cmp(A, H, TOL, "after update(%r, %r) %s does not follow %s (the convention this spelling denotes)" % (c["key"], c["value"], name, c["want"]),
+                     "config|convention-not-applied|%s|%s" % (name, c["value"]))
+        # the stored value is the normalised name (every reader of the config compares against the two canonical names)
+        if stored != c["want"]:
+            raise Fail("update(%r, %r) stored %r, documented normalised name %r" % (c["key"], c["value"], stored, c["want"]),
+                       "config|alias-not-normalised|%s" % c["value"])
+        return ok(nontrivial=True, outcome="config|%s|%s|all-backends" % (c["value"], c["want"].split("_")[0]), stats=dict(applications=napp))
     finally:
         C._config["hartley_convention"] = old
 
